@@ -1,0 +1,20 @@
+//go:build verif
+
+package device
+
+// Hook for the C14 (timers) check of the verification harness; build tag
+// verif only, add-only.
+
+// VerifSetHandshakeAttempts presets the peer's handshakeAttempts counter, so
+// that the give-up branch of expiredRetransmitHandshake is reached at the next
+// retransmit expiry instead of after 20 transmissions.
+func (device *Device) VerifSetHandshakeAttempts(pk NoisePublicKey, n uint32) bool {
+	device.peers.RLock()
+	peer := device.peers.keyMap[pk]
+	device.peers.RUnlock()
+	if peer == nil {
+		return false
+	}
+	peer.timers.handshakeAttempts.Store(n)
+	return true
+}
